@@ -2,8 +2,8 @@ CONSTANTS HW = 7
           Margins = {1, 2, 3, 4, 5, 6}
           Anchors = {1, 2, 3}
           NMax = 6
-          MCMod = 120
-          GenMod = 120
+          MCMod = 84
+          GenMod = 84
           TPad = 2
 INIT Init
 NEXT EvalGen
